@@ -200,7 +200,11 @@ func runCheck(cfg *RunConfig) int {
 			fmt.Printf("harness %s: skipped (a violation is already confirmed; the check fails)\n", hn)
 			continue
 		}
-		fn := prog.props.Func(hn)
+		fnName := hn
+		if i := strings.Index(fnName, "#"); i > 0 {
+			fnName = fnName[:i] // "Harness#variant" runs the same harness with its own parameter overrides
+		}
+		fn := prog.props.Func(fnName)
 		if fn == nil {
 			fmt.Fprintf(os.Stderr, "harness %s not found in verif/harness/props\n", hn)
 			return 2
